@@ -36,13 +36,14 @@ func DefaultFlow() FlowCfg {
 }
 
 type flowGen struct {
-	r      *core.Rand
-	cfg    FlowCfg
-	sc     *Scope
-	nextID int
-	budget int
-	titles []string
-	cur    int // index of the node being generated
+	r       *core.Rand
+	cfg     FlowCfg
+	sc      *Scope
+	nextID  int
+	budget  int
+	titles  []string
+	cur     int // index of the node being generated
+	destVar bool
 }
 
 var asciiTitles = []string{"Start", "Alpha", "Beta", "Gamma", "Delta", "Omega"}
@@ -111,6 +112,12 @@ func Flow(r *core.Rand, cfg FlowCfg) *hast.Program {
 		fuel = 4
 	}
 	decl = append(decl, &hast.Stmt{K: hast.SSet, Var: "fuel", Op: "=", X: hast.Num(strconv.Itoa(fuel)), ID: g.id()})
+	if n > 1 && !cfg.NoSets {
+		// a variable that holds a jump target: the same <<jump {$dest}>> statement may go to different
+		// nodes at different times
+		decl = append(decl, &hast.Stmt{K: hast.SSet, Var: "dest", Op: "=", X: hast.Str(g.titles[r.Range(1, n-1)]), ID: g.id()})
+		g.destVar = true
+	}
 
 	readers := r.Range(1, cfg.MaxReaders)
 	if readers > n {
@@ -220,6 +227,17 @@ func (g *flowGen) jump(target int) []*hast.Stmt {
 		title = "Nowhere"
 		target = len(g.titles) // treated as a forward jump: no fuel guard needed, it fails
 	}
+	if g.destVar && r.Chance(1, 3) {
+		// through the variable (dynamic target: guarded by fuel like a backward jump)
+		st.X = hast.Var("dest")
+		st.Target = ""
+		target = 0
+		if r.Chance(1, 4) {
+			// retarget right before jumping; otherwise the variable keeps whatever it was last set to
+			return append([]*hast.Stmt{{K: hast.SSet, Var: "dest", Op: "=", X: hast.Str(g.titles[r.Range(1, len(g.titles)-1)]), ID: g.id()}}, g.guard(st)...)
+		}
+		return g.guard(st)
+	}
 	if g.cfg.Random && len(g.titles) > 2 && r.Chance(1, 2) {
 		// a random jump target among the nodes 2..k (never the start node, which refills the fuel)
 		st.X = hast.Bin("+", hast.Str("N"), hast.Call("string", hast.Call("random_range", hast.Num("2"), hast.Num(strconv.Itoa(len(g.titles))))))
@@ -243,6 +261,10 @@ func (g *flowGen) jump(target int) []*hast.Stmt {
 		return []*hast.Stmt{st}
 	}
 	// backward or self jump: guarded by fuel
+	return g.guard(st)
+}
+
+func (g *flowGen) guard(st *hast.Stmt) []*hast.Stmt {
 	return []*hast.Stmt{{K: hast.SIf, ID: g.id(), Clauses: []*hast.Clause{{
 		Cond: hast.Bin(">", hast.Var("fuel"), hast.Num("0")),
 		Body: []*hast.Stmt{{K: hast.SSet, Var: "fuel", Op: "-=", X: hast.Num("1"), ID: g.id()}, st},
@@ -305,7 +327,11 @@ func (g *flowGen) body(depth int) []*hast.Stmt {
 		if !g.cfg.Cmds {
 			wCmd = 0
 		}
-		switch r.PickW(30, wOpt, wIf, wSet, wCall, wCmd, g.cfg.WJump, g.cfg.WStop) {
+		wDest := 0
+		if g.destVar {
+			wDest = 4
+		}
+		switch r.PickW(30, wOpt, wIf, wSet, wCall, wCmd, g.cfg.WJump, g.cfg.WStop, wDest) {
 		case 0:
 			body = append(body, &hast.Stmt{K: hast.SLine, Parts: g.parts("L"), Tags: g.tags(), ID: g.id()})
 		case 1:
@@ -345,6 +371,8 @@ func (g *flowGen) body(depth int) []*hast.Stmt {
 			}
 		case 7:
 			body = append(body, &hast.Stmt{K: hast.SStop, ID: g.id()})
+		case 8:
+			body = append(body, &hast.Stmt{K: hast.SSet, Var: "dest", Op: "=", X: hast.Str(g.titles[r.Range(1, len(g.titles)-1)]), ID: g.id()})
 		}
 	}
 	return body
